@@ -75,7 +75,7 @@ class Expr2Mixin:
             key = self.dict_key(st, base, idx)
             self.safety(st, base.has(key), f"safety[{self.site(st, 'sub')}]::key_present", 'KeyError')
             v = base.get(key)
-            return st.new_list(v) if isinstance(v, VList) else v
+            return st.freeze(st.new_list(v)) if isinstance(v, VList) else v
         if isinstance(base, VRecord):
             if not isinstance(idx, VStr) or base.get(idx.s) is None:
                 raise Unsupported("record (dict with fixed keys) read by something else than one of its constant keys")
